@@ -113,7 +113,7 @@ TEXT = {
     "C04": {
         "engine": "crash",
         "technique": "runtime trace monitoring of recovery's own writes + nested crash-image enumeration inside recovery; dump comparison across repeated opens",
-        "level_text": "Crash images that make recovery write (active journal, stale duplicates, half-retired extents) are opened with the trace hook on: (i) the device is reopened twice more and must yield identical contents; (ii) recovery's own write trace is cut (subsets + tearing) to build image', recovered again and must equal the first successful recovery, with one more nesting level on a sample; (iii) every write issued by recovery must avoid the extents of the records the recovery reported live.",
+        "level_text": "Crash images that make recovery write (active journal, stale duplicates, half-retired extents) are opened with the trace hook on: (i) the device is reopened twice more and must yield identical contents; (ii) recovery's own write trace is cut (subsets + tearing) to build image', recovered again and must equal the first successful recovery, with one more nesting level on a sample; (iii) every write issued by recovery must avoid the extents of the records the recovery reported live. A dedicated large scenario makes one recovery retire more than 1024 non-adjacent extents (expired newest generations below the older ones they shadow) and crashes it after every completed fsync of its repair: the next recovery must not serve anything the first one did not (one genuine defect found this way and fixed).",
         "level_note": _CRASH_NOTE,
     },
     "C01": {
